@@ -19,7 +19,9 @@ THEOREMS = [
 ]
 RULE = ("histories of 5-40 operations over 1-4 registries (invalidating, verifying, verifying over "
         "invalidating) built from (lookup, mutation, same lookup) triples whose key is chosen to be "
-        "affected by the mutation; mutation kinds: register, unregister, subscribe, unsubscribe on the "
+        "affected by the mutation; 11 mutation kinds: register, unregister, subscribe, unsubscribe, rebuild() "
+        "(30% of the cases, one totally ordered provided family there; incl. the shape gain k entries / lookup "
+        "through a sub-registry / swap one entry / rebuild / same lookup) on the "
         "registry or a base, registry __bases__, interface __bases__ of a required specification, "
         "classImplements / classImplementsOnly / classImplementsFirst, directlyProvides / alsoProvides / "
         "noLongerProvides on looked-up objects; entry points: lookup, lookup1, lookupAll, names, "
@@ -62,7 +64,7 @@ LEVEL_NOTE = ("Trusted: Coq kernel/vm_compute; the shared transcriptions Model/A
               "driver's translation of declaration calls into the __bases__ assignments it observes.  Not covered by "
               "the theorems: mixed-flavour chains (tested only), weak-reference death of subscribed specifications.")
 
-MUT_KINDS = ("reorder", "register", "unregister", "subscribe", "unsubscribe", "setregbases", "setspecbases",
+MUT_KINDS = ("rebuild", "reorder", "register", "unregister", "subscribe", "unsubscribe", "setregbases", "setspecbases",
              "classimplements", "directlyprovides", "alsoprovides", "nolongerprovides")
 LOOKUPS = ("lookup", "lookup1", "lookupAll", "names", "subscriptions", "queryAdapter", "adapter_hook",
            "queryMultiAdapter", "subscribers")
@@ -73,7 +75,7 @@ STATS = {}     # filled by classify(), reported by extra()
 
 # --------------------------------------------------------------------------- world
 
-def gen_world(rng):
+def gen_world(rng, chain_p=False):
     """Two interface families: R (used as required, may be re-based) and P (used as provided,
     never re-based), no edges between them; ``object``; classes implementing R interfaces; objects."""
     specs = [{"kind": "root"}]
@@ -84,6 +86,8 @@ def gen_world(rng):
             pool = list(fam)
             rng.shuffle(pool)
             bases = RC._consistent_bases(specs, pool[: rng.choice([0, 1, 1, 2])])
+            if chain_p and fam is P:
+                bases = fam[-1:]      # one provided family, totally ordered by extension
             specs.append({"kind": "iface", "bases": bases})
             fam.append(i)
     specs.append({"kind": "object"})
@@ -134,10 +138,16 @@ class Sim:
 # --------------------------------------------------------------------------- history
 
 def gen_case(rng, n_target):
-    world, R, P, classes = gen_world(rng)
+    # rebuild() replays the registrations in nested-dictionary order, the flat model in insertion
+    # order: the two can only differ in the relative order of UNRELATED provided interfaces in the
+    # extendors lists, so histories with rebuild() use one totally ordered provided family.
+    with_rebuild = rng.random() < 0.3
+    world, R, P, classes = gen_world(rng, chain_p=with_rebuild)
     sim = Sim(world, R, P, classes)
     fl = rng.choice(["push", "verifying", "mixed"])
     n_regs = rng.choice([1, 2, 3, 3, 4])
+    if with_rebuild and fl != "push":
+        n_regs = rng.choice([2, 3, 3, 4])
     ops, triples = [], []
     reg_bases = []
     for r in range(n_regs):
@@ -164,6 +174,15 @@ def gen_case(rng, n_target):
                     out.add(q)
                     grew = True
         return sorted(out)
+
+    def chain_up(r):   # r and the registries above it (whose registrations r sees)
+        out, todo = [], [r]
+        while todo:
+            y = todo.pop()
+            if y not in out:
+                out.append(y)
+                todo.extend(reg_bases[y])
+        return out
 
     def look_req(req, focus=None):
         """required specs to look up so that a registration for [req] applies; focus = (position, spec)"""
@@ -295,10 +314,50 @@ def gen_case(rng, n_target):
 
     weights = {"register": 7, "unregister": 3, "subscribe": 4, "unsubscribe": 2, "setregbases": 2,
                "setspecbases": 4, "classimplements": 3, "directlyprovides": 2, "alsoprovides": 2,
-               "nolongerprovides": 1, "reorder": 5, "rebuild": 0.4}
+               "nolongerprovides": 1, "reorder": 5, "rebuild": 3 if with_rebuild else 0}
     kinds = list(weights)
     ws = [weights[k] for k in kinds]
     guard = 0
+    if with_rebuild and n_regs >= 2:
+        # The generation-counter shape: a registry b that so far only GAINED entries (generation =
+        # 1 + number of live entries), a lookup through a registry q below it (a verifying q takes its
+        # generation snapshot), one entry of b swapped (count unchanged), b.rebuild(), the same lookup
+        # with no other mutation in between.  If rebuild() restarted the counter, b's generation
+        # would coincide with q's snapshot and q would keep its stale answer.
+        q = n_regs - 1
+        ups = sorted(set(chain_up(q)) - {q})
+        if ups:
+            b = rng.choice(ups)
+            k = rng.choice([1, 2, 3])
+            p = rng.choice(P)
+            if rng.random() < 0.6:
+                keys = []
+                while len(keys) < k:
+                    key = (rng.choice(R), rng.choice(names))
+                    if key not in keys:
+                        keys.append(key)
+                vals = rng.sample([[1, 1], [3, 3], [4, 4], [5, 5]], k + 1)
+                for (x, nm), v in zip(keys, vals):
+                    ops.append(["register", b, [x], p, nm, v])
+                    regs_seen.append((b, [x], p, nm))
+                x, nm = keys[0]
+                probe = probe_adapter(q, [x], p, nm)
+                swap = [["register", b, [x], p, nm, vals[k]]]
+            else:
+                x = rng.choice(R)
+                vals = rng.sample([[1, 1], [3, 3], [4, 4], [5, 5]], k + 1)
+                pp = p if rng.random() < 0.7 else None
+                for v in vals[:k]:
+                    ops.append(["subscribe", b, [x], pp, v])
+                subs_seen.append((b, [x], pp))
+                probe = probe_subs(q, [x], pp)
+                swap = [["unsubscribe", b, [x], pp, vals[0]], ["subscribe", b, [x], pp, vals[k]]]
+            i0 = len(ops)
+            ops.append(probe)
+            ops.extend(swap)
+            ops.append(["rebuild", b])
+            ops.append(copy.deepcopy(probe))
+            triples.append([i0, len(ops) - 2, len(ops) - 1, "rebuild", probe[0]])
     while len(ops) < n_target and guard < 200:
         guard += 1
         k = rng.choices(kinds, ws)[0]
